@@ -178,7 +178,7 @@ TAILS = {
     "ebuild": ["_p", "_p0", "_p_alpha1", "-r0", "-r1", "-r01", "-r007", "_pre1", "_rc1", "_p1_pre1", "_p1_rc1"],
     "alpine": ["_p", "_p0", "_p_alpha1", "-r0", "-r1", "-r01", "_pre1", "_rc1"],
     "rpm": ["~rc1", "^git1", "^20200101", "-1", "-2", "~", "^"],
-    "deb": ["~rc1", "-1", "-01", "a", "a0", "~rc0", "~rc", "-0ubuntu", "-0ubuntu0", "A", "+"],
+    "deb": ["~rc1", "-1", "-01", "a", "a0", "~rc0", "~rc", "-0ubuntu", "-0ubuntu0", "A", "+", "-1-0", "-0", "-1-1"],
     "nuget": [".1234", ".1234-rc1", ".1234-beta", "-rc1", ".257", ".257-rc1", ".300-a"],
     "alpm": ["-1", "-2", ".0", "a", "rc1"],
     "openssl": ["a", "b", "ab", "ba", "ac", "za", "z"], "legacy_openssl": ["a", "b", "ab", "ba", "ac", "za", "z"],
